@@ -157,24 +157,8 @@ def run(ctx: Ctx):
     z = [n for n in own_nodes(tdr.node) if isinstance(n, ast.Return) and any(u(t) == "not gamma" and pol for t, pol in guards_of(pmt, n))]
     col.ob("G9", "S3", "_rl.py::time_distributed_return::gamma==0-returns-r", len(z) == 1 and u(z[0].value) == "r",
            "with gamma == 0 the function does not return the rewards themselves (R_t = r_t)", "_rl.py", tdr.line)
-    # sibling symmetry: batch_first branch is the transpose of the other: size(1)<->size(0), unsqueeze(1)/(0)<->(0)/(1), tril<->triu,
-    # matmul(r, D) <-> matmul(D, r)
-    br = [n for n in own_nodes(tdr.node) if isinstance(n, ast.If) and u(n.test) == "batch_first"]
-    oksym = False
-    if len(br) == 1:
-        a = "\n".join(u(s) for s in br[0].body)
-        b = "\n".join(u(s) for s in br[0].orelse)
-        import re
-        swap = (a.replace("r.size(1)", "r.size(@0)").replace("unsqueeze(1)", "unsqueeze(@0)").replace("unsqueeze(0)", "unsqueeze(1)")
-                .replace("unsqueeze(@0)", "unsqueeze(0)").replace("r.size(@0)", "r.size(0)").replace(".tril()", ".triu()"))
-        swap = re.sub(r"torch\.matmul\(r, (\w+)\)", r"torch.matmul(\1, r)", swap)
-        oksym = swap == b
-    col.ob("G12", "S3", "_rl.py::time_distributed_return::layouts-are-transposes", oksym,
-           "the batch_first branch is not the transpose of the time-first branch (size axis, unsqueeze axes, tril/triu, "
-           "matmul operand order)", "_rl.py", tdr.line)
-    # the discount matrix is gamma^(t' - t) restricted to t' >= t: ratio of powers, one triangular half
-    okd = any("torch.pow(gamma, " in u(n) for n in own_nodes(tdr.node) if isinstance(n, ast.Assign))
-    col.ob("G12", "S3", "_rl.py::time_distributed_return::discount=gamma^exp", okd, "discounts are not powers of gamma", "_rl.py", tdr.line)
+    # the discount matrix, derived symbolically per layout: R[t] = sum over t' >= t of gamma^(t' - t) r[t']
+    _discount_matrix(ctx, tdr)
     # ---- S4 feat_deltas: each dimension argument is normalised against the rank of the tensor it indexes -----------
     _delta_dims(ctx)
     # ---- S5 store refuses exactly the counts for which a divisor on its path is zero ------------------------------
@@ -188,15 +172,18 @@ def run(ctx: Ctx):
             "sumsq/count - mean^2, Bessel factor count/(count-1), std = sqrt(var); without stored statistics the input's "
             "own population statistics are used; (S2) Module->functional forwarding for normalisation, deltas and returns, "
             "the statistics command builds MeanVarianceNormalization(dim), accumulates every tensor once and stores with "
-            "the requested Bessel flag; (S3) gamma == 0 returns the rewards themselves and the two layouts are transposes. "
+            "the requested Bessel flag; (S3) gamma == 0 returns the rewards themselves; for each layout the discount matrix, "
+            "derived symbolically (index vector -> exponent vector -> row/column-constant matrices -> exponent difference "
+            "-> triangle), has exponent t' - t on exactly t' >= t and is contracted over the time axis of r, i.e. R_t = "
+            "sum_(t' >= t) gamma^(t' - t) r_t' (equivalently R_t = r_t + gamma R_(t+1), R beyond the horizon 0). "
             "(S4) in feat_deltas the negative forms of `time_dim` / `dim` are resolved against the rank of the input / of "
             "the output (input rank + 1 when stacking), and the range checks use the same rank; (S5) store raises exactly "
             "below the smallest count for which every divisor on its path is non-zero (1 without, 2 with Bessel's "
             "correction) [F23 repaired]. "
-            "NOT decided: delta filter values and dimension shuffling, the triangular discount product values, unit "
+            "NOT decided: delta filter values and dimension shuffling, floating-point value of the discount powers, unit "
             "variance after normalisation (floating point)."),
         decided=["S1", "S2", "S3", "S4", "S5"],
-        not_decided=["delta filter values / layout", "discount matrix values", "zero mean / unit variance numerically"],
+        not_decided=["delta filter values / layout", "zero mean / unit variance numerically"],
         assumptions=["exact (real) arithmetic for partition invariance; double precision accumulation is trusted"],
     )
 
@@ -347,6 +334,116 @@ def _store_threshold(ctx: Ctx):
                rel, f.line, sample=dict(divisors=sorted(set(divisors)), raises_below=got, defined_from=need))
 
 
+def _discount_matrix(ctx: Ctx, tdr):
+    """S3: for each layout (batch_first specialised away) the returned value is matmul(r, D) or matmul(D, r); D is
+    evaluated symbolically as gamma^(ci * i + cj * j) kept on one triangle (arange -> index vector, pow(gamma, .) ->
+    exponent vector, unsqueeze(1) / unsqueeze(0) -> row- / column-constant matrix, division -> exponent difference,
+    tril / triu -> i >= j / i <= j). With (source, target) = (row, col) for matmul(r, D) and (col, row) for
+    matmul(D, r), the documented return R_t = sum_{t' >= t} gamma^(t' - t) r_{t'} needs exponent source - target on
+    exactly the triangle source >= target, contracted over the time axis of r."""
+    from sa.defuse import ReachingDefs
+    from sa.specialise import specialise
+    col = ctx.col
+    rname, gname = tdr.params[0].name, tdr.params[1].name
+
+    class Undecided(Exception):
+        pass
+
+    for bf in (True, False):
+        node, folded = specialise(tdr.node, {"batch_first": bf})
+        if folded < 1:
+            raise AnalysisError("C18: time_distributed_return no longer branches on batch_first")
+        rd = ReachingDefs(node)
+        time_axis = 1 if bf else 0
+
+        def ev(e, depth=0):
+            if depth > 20:
+                raise Undecided("depth")
+            if isinstance(e, ast.Name):
+                ds = list(rd.defs_of(e))
+                if len(ds) == 1 and ds[0].kind == "assign":
+                    return ev(ds[0].value, depth + 1)
+                raise Undecided(f"`{e.id}` has {len(ds)} definitions")
+            if isinstance(e, ast.Call):
+                cn = call_name(e)
+                if cn == "torch.arange" and len(e.args) == 1:
+                    n = e.args[0]
+                    if not (isinstance(n, ast.Call) and isinstance(n.func, ast.Attribute) and n.func.attr == "size"
+                            and u(n.func.value) == rname and n.args and isinstance(n.args[0], ast.Constant)):
+                        raise Undecided(f"arange extent `{u(n)}`")
+                    return ("index", n.args[0].value)
+                if cn == "torch.pow" and len(e.args) == 2 and u(e.args[0]) == gname:
+                    v = ev(e.args[1], depth + 1)
+                    if v[0] != "index":
+                        raise Undecided("pow of a non-index")
+                    return ("vec", 1, v[1])
+                if isinstance(e.func, ast.Attribute):
+                    m = e.func.attr
+                    if m == "unsqueeze" and len(e.args) == 1 and isinstance(e.args[0], ast.Constant):
+                        v = ev(e.func.value, depth + 1)
+                        if v[0] != "vec":
+                            raise Undecided("unsqueeze of a non-vector")
+                        if e.args[0].value in (1, -1):
+                            return ("mat", v[1], 0, None, v[2])
+                        if e.args[0].value in (0, -2):
+                            return ("mat", 0, v[1], None, v[2])
+                        raise Undecided("unsqueeze axis")
+                    if m in ("tril", "triu") and not e.args and not e.keywords:
+                        v = ev(e.func.value, depth + 1)
+                        if v[0] != "mat" or v[3] is not None:
+                            raise Undecided("triangle of a non-matrix")
+                        return ("mat", v[1], v[2], "i>=j" if m == "tril" else "i<=j", v[4])
+                    if m in ("to", "contiguous", "clone"):
+                        return ev(e.func.value, depth + 1)
+            if isinstance(e, ast.BinOp) and isinstance(e.op, ast.Pow) and u(e.left) == gname:
+                v = ev(e.right, depth + 1)
+                if v[0] != "index":
+                    raise Undecided("power of a non-index")
+                return ("vec", 1, v[1])
+            if isinstance(e, ast.BinOp) and isinstance(e.op, (ast.Div, ast.Mult)):
+                a, b = ev(e.left, depth + 1), ev(e.right, depth + 1)
+                if a[0] != "mat" or b[0] != "mat" or a[3] or b[3] or a[4] != b[4]:
+                    raise Undecided("ratio of non-matrices")
+                sg = -1 if isinstance(e.op, ast.Div) else 1
+                return ("mat", a[1] + sg * b[1], a[2] + sg * b[2], None, a[4])
+            raise Undecided(f"`{u(e)[:50]}`")
+
+        rets = [n for n in ast.walk(node) if isinstance(n, ast.Return) and n.value is not None and u(n.value) != rname]
+        key = f"_rl.py::time_distributed_return::discount-matrix[batch_first={bf}]"
+        try:
+            if len(rets) != 1:
+                raise Undecided(f"{len(rets)} returns")
+            v = rets[0].value
+            if isinstance(v, ast.Name):
+                ds = list(rd.defs_of(v))
+                if len(ds) != 1:
+                    raise Undecided("returned value has several definitions")
+                v = ds[0].value
+            if not (isinstance(v, ast.Call) and call_name(v) in ("torch.matmul", "torch.mm") and len(v.args) == 2):
+                raise Undecided(f"returned value `{u(v)[:40]}` is not a matrix product")
+            a, b = v.args
+            r_first = isinstance(a, ast.Name) and a.id == rname and all(d.kind == "param" for d in rd.defs_of(a))
+            r_second = isinstance(b, ast.Name) and b.id == rname and all(d.kind == "param" for d in rd.defs_of(b))
+            if r_first == r_second:
+                raise Undecided("cannot tell which operand is the reward tensor")
+            D = ev(b if r_first else a)
+            if D[0] != "mat":
+                raise Undecided("discount operand is not a matrix")
+        except Undecided as e_:
+            col.undecided(f"C18: {key}: {e_}")
+            continue
+        _, ci, cj, keep, axis = D
+        # matmul(r, D) contracts r's last axis with D's rows; matmul(D, r) contracts D's columns with r's first axis
+        contracted = 1 if r_first else 0
+        want = (1, -1, "i>=j") if r_first else (-1, 1, "i<=j")
+        ok = (ci, cj, keep) == want and contracted == time_axis and axis == time_axis
+        col.ob("G12", "S3", key, ok,
+               f"with batch_first={bf} the return is {'matmul(r, D)' if r_first else 'matmul(D, r)'} with D[i, j] = "
+               f"gamma^({ci}*i + {cj}*j) kept where {keep}, D sized by axis {axis} and contracted over axis {contracted} of r; "
+               f"R_t = sum_(t' >= t) gamma^(t' - t) r_t' needs exponents {want[0]}*i + {want[1]}*j on {want[2]} over the time "
+               f"axis {time_axis}", "_rl.py", rets[0].lineno, sample=dict(ci=ci, cj=cj, keep=keep, axis=axis, r_first=r_first))
+
+
 def _mutants():
     from selftest.mutate import Mutant as M
     _extra = [
@@ -373,7 +470,11 @@ def _mutants():
         M("module-drops-eps", F, "return mean_var_norm(x, self.dim, self.mean, self.std, self.eps)", "return mean_var_norm(x, self.dim, self.mean, self.std)", "G5/S2"),
         M("cli-bessel-unread", C, "mvn.store(bessel=options.bessel)", "mvn.store()", "G"),
         M("gamma0-copy", R, "if not gamma:\n        return r", "if not gamma:\n        return r.clone()", "gamma==0-returns-r"),
-        M("layout-asymmetry", R, "discount = (discount.unsqueeze(0) / discount.unsqueeze(1)).triu()", "discount = (discount.unsqueeze(0) / discount.unsqueeze(1)).tril()", "layouts-are-transposes"),
+        M("layout-asymmetry", R, "discount = (discount.unsqueeze(0) / discount.unsqueeze(1)).triu()", "discount = (discount.unsqueeze(0) / discount.unsqueeze(1)).tril()", "discount-matrix[batch_first=False]"),
+        M("both-layouts-discount-the-past", R, "(discount.unsqueeze(1) / discount.unsqueeze(0)).tril()", "(discount.unsqueeze(0) / discount.unsqueeze(1)).tril()", "discount-matrix[batch_first=True]"),
+        M("time-extent-from-batch-axis", R, "exp = torch.arange(r.size(1), device=r.device, dtype=r.dtype)", "exp = torch.arange(r.size(0), device=r.device, dtype=r.dtype)", "discount-matrix[batch_first=True]"),
+        M("operands-swapped", R, "R = torch.matmul(discount, r)", "R = torch.matmul(r, discount)", "discount-matrix[batch_first=False]"),
+        M("twin:power-operator", R, "discount = torch.pow(gamma, exp)", "discount = gamma ** exp", "", -1, twin=True),
         M("twin:rename-last-filt", F, "last_filt", "prev_filt", "", -1, twin=True),
     ]
 
@@ -389,12 +490,14 @@ MANIFEST = dict(
         "statistic changes only by += of a term of the new batch, never reading the current statistics), which makes "
         "the stored statistics a function of the multiset of frames - i.e. invariant to every partition and order of "
         "accumulation in exact arithmetic; the store formulas in rational normal form; forwarding of the three Modules "
-        "and of the statistics command; the gamma == 0 short-circuit and transpose symmetry of the discounted return; "
+        "and of the statistics command; the gamma == 0 short-circuit and a symbolic derivation of the discount matrix of "
+        "each layout (exponent t' - t on exactly t' >= t, contracted over the time axis), which is the stated recurrence "
+        "in exact arithmetic; "
         "in feat_deltas each dimension argument is resolved and range-checked against the rank of the tensor it "
         "indexes (input rank for time_dim; output rank, one more when stacking, for dim). "
         "Necessary (and, for partition invariance, sufficient up to floating point) structural clauses of C18; delta "
-        "filter values and the discount product are numerical and not decided."),
+        "filter values and floating-point rounding are numerical and not decided."),
     level_note="Trusted: python ast; real-number idealisation of double-precision accumulation.",
-    technique="static analysis: additive-homomorphism (monoid) effect rule, rational normal forms, sibling transpose symmetry, forwarding completeness, partial evaluation + rank-term comparison",
+    technique="static analysis: additive-homomorphism (monoid) effect rule, rational normal forms, symbolic exponent-matrix derivation, forwarding completeness, partial evaluation + rank-term comparison",
     design_ref="DESIGN.md section 4 C18",
 )
